@@ -508,10 +508,23 @@ def run(ctx):
     defs3 = ["query Q { dog { ...itemDetails } }", "fragment itemDetails on Dog { bark ...itemName }",
              "fragment itemName on Dog { name }"]
     defs4 = ["query Q { dog { ...A ...B } }", "fragment A on Dog { id mate { ...B } }", "fragment B on Dog { bark }"]
-    for k_, (nm_, ds_) in enumerate([("case-style-regression", defs3), ("nested-mention-regression", defs4)]):
+    # the documents of the Coq Examples (Properties/C08.v) replayed on the real generator
+    defs5 = ["query One { animal { ...AF } }", "query Two { dog { ...AF ...Only } }",
+             'fragment AF on Animal @mixin(from: "mixins_impl", import: "MixinA") { ...Base }',
+             "fragment Base on Animal { name }", "fragment Only on Dog { ... on Dog { bark } }"]
+    defs6 = ["query Q { dog { ...A @include(if: true) } }",
+             "query R { dog { ... on Dog @include(if: true) { ...B } ...B ...A @skip(if: false) } }",
+             "fragment A on Dog { id }", "fragment B on Dog { bark ...A }"]
+    defs7 = ["query Q { dog { ...DOG_ALL } }", "fragment itemDetails on Dog { bark ...itemName }",
+             "fragment itemName on Dog { name }", "fragment dog_extra_1 on Dog { ...itemDetails }",
+             "fragment DOG_ALL on Dog { ...dog_extra_1 ...itemName }"]
+    for k_, (nm_, ds_) in enumerate([("case-style-regression", defs3), ("nested-mention-regression", defs4),
+                                     ("coq-example:package", defs5), ("coq-example:conditional", defs6),
+                                     ("coq-example:case-styles", defs7)]):
         scs.insert(2 + k_, scenario.Scenario(seed=-10 - k_, sdl=frag_scen.SDL, queries="\n\n".join(ds_) + "\n", config={},
                                              features=("frags",), files={"mixins_impl.py": frag_scen.MIXINS_PY},
-                                             notes={"shape": nm_, "n_frags": 2, "n_defs": 3, "defs": ds_,
+                                             notes={"shape": nm_, "n_frags": sum(d.startswith("fragment") for d in ds_),
+                                                    "n_defs": len(ds_), "defs": ds_,
                                                     "mixin_directives": 0}))
     n1 = run_stream(ctx, scs, "frags", with_variants=True)
     mains = []
